@@ -252,9 +252,19 @@ func HarnessC17RspSize(rl, lo, hi int) {
 	w.Feed(c, []byte("*2\r\n$3\r\nget\r\n$1\r\nb\r\n"))
 	w.RunTasks()
 	verifrt.Assume(len(w.Servers) == 1)
+	// a second client has a request in flight behind it on the same backend connection
+	c2 := w.NewClient("10.0.0.2:5000")
+	w.Feed(c2, []byte("*2\r\n$3\r\nget\r\n$1\r\nb\r\n"))
+	w.RunTasks()
+	verifrt.Assert(len(w.Servers) == 1, "one_backend_connection")
 	payload := verifrt.Bytes("payload", rl)
 	reply := core.VerifEncode(payload)[4:] // "$<rl>\r\n<payload>\r\n"
-	w.Feed(w.Servers[0], reply)
+	if verifrt.Choice("both_replies_in_one_read", 2) == 1 {
+		w.Feed(w.Servers[0], append(append([]byte{}, reply...), "+K\r\n"...))
+	} else {
+		w.Feed(w.Servers[0], reply)
+		w.Feed(w.Servers[0], []byte("+K\r\n"))
+	}
 	out := w.Sent(c)
 	verifrt.ObserveBytes("client", out)
 	if len(reply) > limit {
@@ -262,6 +272,8 @@ func HarnessC17RspSize(rl, lo, hi int) {
 	} else {
 		verifrt.Assert(verifBytesEq(out, reply), "reply_within_limit_passes")
 	}
+	// whatever happened to the first reply, the backend stream stays aligned: the next request gets its own reply
+	verifrt.Assert(bytes.Equal(w.Sent(c2), []byte("+K\r\n")) && c2.Opened() && c.Opened(), "next_request_on_the_connection_gets_its_own_reply")
 	verifrt.Cover("end", true)
 }
 
